@@ -1,6 +1,7 @@
 package sstables
 
 import (
+	"bytes"
 	"errors"
 	"fmt"
 	rProto "github.com/thomasjungblut/go-sstables/recordio/proto"
@@ -41,21 +42,32 @@ func (s *Byte20KeyMapper) MapBytes(data []byte) [20]byte {
 // find the given keys for range lookups. This is useful for fast Contains/Get lookups.
 type MapKeyIndex[T comparable] struct {
 	SliceKeyIndex
-	index  map[T]IndexVal
+	// index maps the mapped key to its position in the slice index. The mapping pads short keys, so several keys can
+	// share a slot: a hit is only trusted when the stored key is the requested one, otherwise the slice is searched.
+	index  map[T]int
 	mapper ByteKeyMapper[T]
 }
 
 func (s *MapKeyIndex[T]) Contains(key []byte) (bool, error) {
-	_, found := s.index[s.mapper.MapBytes(key)]
-	return found, nil
+	_, err := s.Get(key)
+	if err != nil {
+		if errors.Is(err, skiplist.NotFound) {
+			return false, nil
+		}
+		return false, err
+	}
+	return true, nil
 }
 func (s *MapKeyIndex[T]) Get(key []byte) (IndexVal, error) {
-	val, found := s.index[s.mapper.MapBytes(key)]
-	if found {
-		return val, nil
+	i, found := s.index[s.mapper.MapBytes(key)]
+	if found && bytes.Equal(s.SliceKeyIndex.index[i].key, key) {
+		return s.SliceKeyIndex.index[i].IndexVal, nil
+	}
+	if !found {
+		return IndexVal{}, skiplist.NotFound
 	}
 
-	return IndexVal{}, skiplist.NotFound
+	return s.SliceKeyIndex.Get(key)
 }
 
 type MapKeyIndexLoader[T comparable] struct {
@@ -90,7 +102,7 @@ func (s *MapKeyIndexLoader[T]) Load(indexPath string, metadata *proto.MetaData) 
 		capacity = metadata.NumRecords
 	}
 
-	smap := make(map[T]IndexVal, capacity)
+	smap := make(map[T]int, capacity)
 	sx := make([]sliceKey, 0, capacity)
 
 	record := &proto.IndexEntry{}
@@ -107,7 +119,7 @@ func (s *MapKeyIndexLoader[T]) Load(indexPath string, metadata *proto.MetaData) 
 		}
 
 		kBytes := s.Mapper.MapBytes(record.Key)
-		smap[kBytes] = IndexVal{Offset: record.ValueOffset, Checksum: record.Checksum}
+		smap[kBytes] = len(sx)
 		sx = append(sx, sliceKey{IndexVal{Offset: record.ValueOffset, Checksum: record.Checksum}, record.Key})
 
 		i++
